@@ -24,6 +24,7 @@ fn main() {
         runner::replay(&args);
     }
     match args.prop.as_str() {
+        "C40" => props::c40(&args),
         "C41" => props::c41(&args),
         "C42" => props::c42(&args),
         "C43" => props::c43(&args),
